@@ -409,7 +409,7 @@ func run(c *hl.Ctx) error {
 			c.Count("corpus:compile-error")
 		}
 	}
-	n := c.Pick(6000, 250000)
+	n := c.Pick(6000, 120000)
 	for i := 0; i < n; i++ {
 		p := pg.program()
 		if observeProg(c, p, nil) {
@@ -419,7 +419,7 @@ func run(c *hl.Ctx) error {
 		}
 	}
 	// connection-ID-like texts through the real ParseMapKey (ties the edge-group part of the parser model)
-	m := c.Pick(6000, 300000)
+	m := c.Pick(6000, 150000)
 	var pool []string
 	for i := 0; i < m; i++ {
 		if i%20 == 0 {
